@@ -761,3 +761,37 @@ def dominated_by_block(body, bb, call_pat):
     """all calls matching call_pat are dominated by block bb"""
     cs = body.calls_to(call_pat)
     return cs and all(body.dominates(bb, c.bb) for c in cs)
+
+
+NARROWING = rx(r"call:.*(Iterator::(skip|take|filter|step_by|skip_while|take_while|filter_map|nth|last)|::(split_off|truncate|drain|split_at|pop|pop_front|pop_back|first|last))$")
+
+
+def loop_over_all(R, key, body, inner_call, must_src, what=""):
+    """The loop whose body performs `inner_call` iterates a collection derived from `must_src`
+    without a narrowing adaptor (skip/take/filter/...)."""
+    R.fn(body)
+    inner = body.calls_to(inner_call)
+    nxt = [c for c in body.calls if c.callee.endswith("Iterator::next")]
+    R.sites += len(inner) + len(nxt)
+    if not inner:
+        R.bad(key + "/anchor-lost", "%s: no call to %s in %s" % (what or "loop", label(inner_call), body.path), [body.where()])
+        return False
+    ok = True
+    for c in inner:
+        loops = [n for n in nxt if body.dominates(n.bb, c.bb)]
+        if not loops:
+            R.bad(key, "%s: %s at %s is not inside a loop" % (what or "loop", label(inner_call), c.where()), [c.where()])
+            ok = False
+            continue
+        n = loops[-1]
+        srcs = body.operand_sources(n.args[0])
+        narrowing = sorted(s for s in srcs if NARROWING.search(s))
+        if not src_match(srcs, must_src):
+            R.bad(key, "%s: the loop around %s does not iterate %s" % (what or "loop", label(inner_call), must_src), [n.where()])
+            ok = False
+        elif narrowing:
+            R.bad(key, "%s: the loop around %s narrows its input with %s" % (what or "loop", label(inner_call), narrowing[0]), [n.where()])
+            ok = False
+    if ok:
+        R.ok(key, "%s: the loop around %s covers every element of %s" % (what or "loop", label(inner_call), must_src), [c.where() for c in inner[:3]])
+    return ok
